@@ -94,6 +94,9 @@ DEFAULTS: Dict[str, Any] = dict(
     h2_windows=False,  # vary client windows / manual window updates
     latencies=[0.001, 0.0001, 0.01, 0.05],
     think=[0.0],  # pauses between sequential requests
+    sndbufs=[256 * 1024, 256 * 1024, 4096, 65536],  # server-side socket send buffer
+    short_send=6,  # 1-in-n chance of short writes on the server socket (0: never)
+    h2_window=None,  # fixed (large) client windows: no flow-control pacing at all
 )
 
 
@@ -224,8 +227,8 @@ def gen_session(tape: Tape, world: World, host: AppHost, opts: Dict[str, Any],
             seg_mode = tape.weighted([4, 3, 1, 1], "conn.seg")
             seg = [0, 1, 2, 5 + tape.draw(200, "conn.segsize") if seg_mode == 3 else 0][seg_mode]
         lat = tape.choice(opts["latencies"], "conn.lat")
-        sndbuf = tape.choice([256 * 1024, 256 * 1024, 4096, 65536], "conn.sndbuf")
-        short = tape.chance(1, 6, "conn.shortsend")
+        sndbuf = tape.choice(opts["sndbufs"], "conn.sndbuf")
+        short = tape.chance(1, opts["short_send"], "conn.shortsend") if opts["short_send"] else False
 
         def setup(conn: Any, seg: int = seg, lat: float = lat, sndbuf: int = sndbuf, short: bool = short) -> None:
             conn.seg_mode = seg
@@ -375,12 +378,16 @@ def _build_h2_script(tape: Tape, opts: Dict[str, Any], world: World, plan: ConnP
             # ample stream windows: only the connection window runs out, and only connection-level
             # credit is ever granted
             auto = False
+    if opts.get("h2_window"):
+        window = opts["h2_window"]
     peer = H2Peer(initial_window=window, max_frame=max_frame, auto_window=auto)
     plan.peer = peer
     plan.parser = peer
     plan.notes.update(window=window, max_frame=max_frame, auto=auto)
     csample.update(window=window, max_frame=max_frame, auto_window=auto)
     steps: List[tuple] = [("send", peer.preface())]
+    if opts.get("h2_window"):
+        steps.append(("send", peer.window_update(0, opts["h2_window"])))
     sids: List[int] = []
     concurrent = tape.chance(1, 2, "h2.concurrent")
     for req in plan.reqs:
